@@ -1,0 +1,19 @@
+//go:build verif
+
+package scheduler
+
+// Verification hook for property C17 (add-only, compiled only with -tags verif).
+
+// VerifKick runs f while holding the scheduler's write lock unless a timer tick is waiting in timer.C, and
+// reports whether one was waiting. A harness uses it to move a mock clock by zero (so that a mock timer armed at
+// or before "now" fires like a real one): with an unconsumed tick in the channel the mock's next tick would block
+// inside the mock, so the test and the move have to happen under one lock acquisition.
+func (s *TreeScheduler) VerifKick(f func()) (tickPending bool) {
+	s.mu.Lock()
+	defer s.mu.Unlock()
+	if len(s.timer.C) > 0 {
+		return true
+	}
+	f()
+	return false
+}
